@@ -52,6 +52,20 @@ theorem tie_cached_value : C12.mergeWriteCachesWritten = true ∧ C12.mergeSkipC
     new set in reversed path order (`nonePolicy` in the model). -/
 theorem tie_none_policy_sweeps : C12.nonePolicySweeps = [(true, false), (false, true)] := by decide
 
+/-- both sweeps: needUpdate first; the updater call; an error — ignored or not — takes `continue` BEFORE the
+    timestamp / ResourceCache.SetDefault statements, so a directory that could not be read or written is never
+    recorded in the cache (`stepE` in Model/C12Env.lean: identity on a missing directory); in the first sweep the
+    error test also precedes the `mergedUpdater == nil` (skipMerge) test. -/
+theorem tie_pass_skeleton :
+    C12.passSkeleton =
+      ["if:!needUpdate(updater):continue ; call:MergeUpdate() ; if:err!=nil&&isUpdateErrIgnored(err):continue ; if:err!=nil:continue ; if:mergedUpdater==nil ; do:UpdateLastUpdateTimestamp ; cache ; if:err!=nil",
+       "if:!needUpdate(updater):continue ; if:skipMerge[Key()]:continue ; call:update() ; if:err!=nil&&isUpdateErrIgnored(err):continue ; if:err!=nil:continue ; do:UpdateLastUpdateTimestamp ; cache ; if:err!=nil"] := by
+  decide
+
+/-- the errors the executor ignores: nil, resource unsupported, cgroup dir/file does not exist. -/
+theorem tie_ignored_errs :
+    C12.ignoredErrConds = ["err==nil", "IsResourceUnsupportedErr(err)", "IsCgroupDirErr(err)"] := by decide
+
 /-- applyBESuppressCPUSet dispatches as `applyBESuppress` in the model: two returning guards (NodeTopo nil, policy
     annotation unparsable) before the branch, the static arm taken iff Policy == "static", the none-policy
     function in the other arm. -/
